@@ -188,13 +188,20 @@ func init() {
 			{Pkg: waddrmgrPkg, Fn: "ZzC03Bip84L3", Tiers: "qt", Reach: []string{"c03-end", "extended", "privkey-checked", "restarted"}, Bound: "scope BIP0084, account 0, every history of 3 operations from {next-external(1..2), next-internal, extend-external, mark-used, lock, unlock, restart, derive-from-path}; after every step every issued address is looked up and checked"},
 			{Pkg: waddrmgrPkg, Fn: "ZzC03Bip84L3Locked", Tiers: "qt", Reach: []string{"c03-end", "privkey-checked"}, Bound: "same, starting locked (keys derived on unlock)"},
 			{Pkg: waddrmgrPkg, Fn: "ZzC03LegacySeedL2", Tiers: "qt", Reach: []string{"c03-end", "legacy-rule-differs-from-bip32", "privkey-checked"}, Bound: "a second concrete seed whose m/84'/0' private key has a leading zero byte (btcsuite's legacy hardened rule differs from BIP32 below it), 2 operations, account 0"},
+			{Pkg: waddrmgrPkg, Fn: "ZzC03AcctsL2", Tiers: "qt", Reach: []string{"c03b-end", "account-created", "imported", "passphrase-changed", "recreated-compared", "privkey-checked", "extended"}, Bound: "scope BIP0084, accounts 0 and a second seeded account created during the history, every history of 2 operations from {next-external(1..2), next-internal, extend-internal, lock, unlock, restart, private passphrase change, new account, import private key + script, derive-from-path} on a chosen account; additionally the address must ENCODE the expected key in the expected format (oracle built with btcutil only), imported key/script returned unchanged, and a second wallet created from the same seed must issue the same addresses"},
+			{Pkg: waddrmgrPkg, Fn: "ZzC03ImportedL3", Tiers: "qt", Reach: []string{"c03b-end", "imported-account", "extended", "restarted", "passphrase-changed"}, Bound: "imported extended-public-key account (child b/i of the imported key) under scope BIP0049Plus with an overriding address schema (nested witness on both branches), histories of 3 operations from {next-external, next-internal, extend-internal, lock, unlock, restart, passphrase change}"},
+			{Pkg: waddrmgrPkg, Fn: "ZzC03ImportedTaprootL2", Tiers: "qt", Reach: []string{"c03b-end", "imported-account"}, Bound: "imported account under scope BIP0044 overriding to taproot (external) / witness (internal) addresses, 2 operations"},
+			{Pkg: waddrmgrPkg, Fn: "ZzC03AcctsL3", Tiers: "t", Reach: []string{"c03b-end", "account-created", "imported", "recreated-compared"}, Bound: "several accounts, imports, passphrase change: 3 operations, scope BIP0084"},
+			{Pkg: waddrmgrPkg, Fn: "ZzC03Accts86L3", Tiers: "t", Reach: []string{"c03b-end"}, Bound: "same, scope BIP0086 (taproot)"},
+			{Pkg: waddrmgrPkg, Fn: "ZzC03Accts44L3", Tiers: "t", Reach: []string{"c03b-end"}, Bound: "same, scope BIP0044"},
+			{Pkg: waddrmgrPkg, Fn: "ZzC03ImportedPlainL3", Tiers: "t", Reach: []string{"c03b-end", "imported-account"}, Bound: "imported account under BIP0084 without schema override, 3 operations"},
 			{Pkg: waddrmgrPkg, Fn: "ZzC03Bip44L3", Tiers: "t", Reach: []string{"c03-end"}, Bound: "scope BIP0044, 3 operations"},
 			{Pkg: waddrmgrPkg, Fn: "ZzC03Bip49L3", Tiers: "t", Reach: []string{"c03-end"}, Bound: "scope BIP0049Plus, 3 operations"},
 			{Pkg: waddrmgrPkg, Fn: "ZzC03Bip86L3", Tiers: "t", Reach: []string{"c03-end"}, Bound: "scope BIP0086, 3 operations"},
 			{Pkg: waddrmgrPkg, Fn: "ZzC03Bip84L4", Tiers: "t", Reach: []string{"c03-end"}, Bound: "scope BIP0084, 4 operations"},
 		},
 		Assume:  mgrAssume,
-		Outside: "other seeds, accounts other than 0, imported xpub accounts, custom scopes, passphrase change, imports, more than 4 operations; whether btcd's DeriveNonStandard equals BIP32; histories are enumerated, all data is concrete (no solver-decided data in this check)",
+		Outside: "other seeds, more than two seeded accounts and one imported account, custom (non-default) scopes, public passphrase change, more than 4 operations; whether btcd's DeriveNonStandard equals BIP32; histories are enumerated, all data is concrete (no solver-decided data in this check)",
 	})
 	reg(&propDef{
 		ID: "C05",
